@@ -9,6 +9,7 @@ import GluonModel.Model.SessionLoop
 import GluonModel.Lemmas.ParseMono
 import GluonModel.Lemmas.ParseTerm
 import GluonModel.Lemmas.ParseNoPanic
+import GluonModel.Lemmas.ParseErrLoaded
 
 namespace Gluon.SessionLoop
 open Gluon.Parse
@@ -16,6 +17,7 @@ open Gluon.Parse
 /-! ### `Parse()` on an arbitrary parser state -/
 
 instance : Mono (parseLineBody fuel) := by unfold parseLineBody; infer_instance
+instance : ErrLoaded (parseLineBody fuel) := by unfold parseLineBody; infer_instance
 
 /-- `Parse`, started in any state with fewer unread bytes than fuel, does not run out of fuel -/
 theorem parseLine_total (fuel : Nat) (s : PState) (h : s.rest.length < fuel) : parseLine fuel s ≠ .fuel := by
@@ -33,7 +35,7 @@ theorem isTagChar_eof : isTagChar .eof = false := by decide
 
 /-- what `Parse` does when nothing is left to read: an error, and still nothing left -/
 theorem parseLine_nil (fuel : Nat) (s : PState) (h : s.rest = []) :
-    ∃ t s', parseLine fuel s = .err (.parse t) s' ∧ s'.rest = [] := by
+    ∃ t s', parseLine fuel s = .err (.parse t) s' ∧ s'.rest = [] ∧ s'.cur.ty = .eof := by
   let s1 : PState := { s with rest := [], prev := s.cur, cur := Tok.eof }
   have ha : advance s = .ok () s1 := by unfold advance; simp only [h]; rfl
   have hc : consumeWith isTagChar s1 = .err (.parse s1.prev.ty) s1 := by
@@ -42,7 +44,7 @@ theorem parseLine_nil (fuel : Nat) (s : PState) (h : s.rest = []) :
     unfold parseTag; rw [bind_eq, hc]
   have hb : parseLineBody fuel s1 = .err (.parse s1.prev.ty) s1 := by
     unfold parseLineBody; rw [bind_eq, ht]
-  refine ⟨s1.prev.ty, s1, ?_, rfl⟩
+  refine ⟨s1.prev.ty, s1, ?_, rfl, rfl⟩
   rw [parseLine_eq, bind_eq, ha]; exact hb
 
 /-- whatever `Parse` returns, the unread bytes are a suffix of the unread bytes after the first one -/
@@ -64,11 +66,24 @@ theorem parseLine_rest (fuel : Nat) (s : PState) (b : UInt8) (bs : Bytes) (h : s
 theorem consumeInvalidInput_rest (s : PState) : (consumeInvalidInput s).1.rest <:+ s.rest := by
   unfold consumeInvalidInput
   split
-  · exact List.nil_suffix
-  · rename_i x r h
-    show r <:+ s.rest
-    have h1 : r <:+ List.dropWhile (· != 10) s.rest := by rw [h]; exact List.suffix_cons _ _
-    exact List.IsSuffix.trans h1 (List.dropWhile_suffix _)
+  · exact List.suffix_refl _
+  · split
+    · exact List.nil_suffix
+    · rename_i x r h
+      show r <:+ s.rest
+      have h1 : r <:+ List.dropWhile (· != 10) s.rest := by rw [h]; exact List.suffix_cons _ _
+      exact List.IsSuffix.trans h1 (List.dropWhile_suffix _)
+
+/-- a failed `Parse` (parser error) leaves a loaded state whose look-ahead byte and unread bytes are a suffix
+of what was unread before -/
+theorem parseLine_err_loaded (fuel : Nat) (s : PState) (t : TokTy) (s1 : PState)
+    (h : parseLine fuel s = .err (.parse t) s1) : Loaded s1 ∧ s1.input <:+ s.rest := by
+  rw [parseLine_eq, bind_eq] at h
+  obtain ⟨s0, e, hi, hl⟩ := advance_input s
+  rw [e] at h
+  have := ErrLoaded.el (p := parseLineBody fuel) s0 t s1 hl h
+  rw [hi] at this
+  exact this
 
 /-! ### one iteration -/
 
@@ -79,14 +94,14 @@ theorem readStep_line (cfg : Cfg) (fuel : Nat) (s : PState) (l : Line) (s' : PSt
     ∃ b bs, s.rest = b :: bs ∧ s'.rest <:+ bs ∧ l.bytes = consumedBytes s s' := by
   cases hr : s.rest with
   | nil =>
-    obtain ⟨t, s1, hp, hn⟩ := parseLine_nil fuel s hr
+    obtain ⟨t, s1, hp, hn, hce⟩ := parseLine_nil fuel s hr
     unfold readStep at h
     rw [hp] at h
     simp only at h
     split at h
     · cases h
     · have : consumeInvalidInput s1 = ({ s1 with rest := [] }, false) := by
-        unfold consumeInvalidInput; simp [hn]
+        unfold consumeInvalidInput; simp [hn, hce]
       rw [this] at h
       cases h
   | cons b bs =>
@@ -332,20 +347,44 @@ theorem dropWhile_head_not {α : Type} (p : α → Bool) : ∀ (l : List α) (x 
       cases h
       simpa using hp
 
-/-- `ConsumeInvalidInput` that succeeded has skipped bytes up to and including an LF -/
+theorem mem_takeWhile_true {α : Type} (p : α → Bool) : ∀ (l : List α) (x : α), x ∈ l.takeWhile p → p x = true := by
+  intro l
+  induction l with
+  | nil => intro x h; cases h
+  | cons a l ih =>
+    intro x h
+    rw [List.takeWhile_cons] at h
+    split at h
+    · rename_i hp
+      rcases List.mem_cons.mp h with h | h
+      · rw [h]; exact hp
+      · exact ih x h
+    · cases h
+
+/-- `ConsumeInvalidInput` that succeeded: either the look-ahead token was the LF already and nothing was read
+(only when `skipStopsAtLookaheadLF`), or it has skipped LF-free bytes and then an LF -/
 theorem consumeInvalidInput_true (s s2 : PState) (h : consumeInvalidInput s = (s2, true)) :
-    ∃ pre, s.rest = pre ++ 10 :: s2.rest := by
+    (s2 = s ∧ s.cur.ty = .lf) ∨ ∃ pre, s.rest = pre ++ 10 :: s2.rest ∧ (10 : UInt8) ∉ pre := by
   unfold consumeInvalidInput at h
   split at h
-  · cases h
-  · rename_i x r hd
+  · rename_i hc
     cases h
-    have hx := dropWhile_head_not _ _ _ _ hd
-    have hx10 : x = 10 := by simpa using hx
-    refine ⟨s.rest.takeWhile (· != 10), ?_⟩
-    have := List.takeWhile_append_dropWhile (p := (· != 10)) (l := s.rest)
-    rw [hd, hx10] at this
-    exact this.symm
+    simp only [Bool.and_eq_true, beq_iff_eq] at hc
+    exact Or.inl ⟨rfl, hc.2⟩
+  · right
+    split at h
+    · cases h
+    · rename_i x r hd
+      cases h
+      have hx := dropWhile_head_not _ _ _ _ hd
+      have hx10 : x = 10 := by simpa using hx
+      refine ⟨s.rest.takeWhile (· != 10), ?_, ?_⟩
+      · have := List.takeWhile_append_dropWhile (p := (· != 10)) (l := s.rest)
+        rw [hd, hx10] at this
+        exact this.symm
+      · intro hm
+        have := mem_takeWhile_true _ _ _ hm
+        simp at this
 
 /-- a successful `Parse` ends right after an LF: it has consumed a CR token and then looked at (read) the
 byte after it, which is LF -/
@@ -433,10 +472,16 @@ theorem readStep_line_lf (cfg : Cfg) (fuel : Nat) (s : PState) (l : Line) (s' : 
             split at h
             · cases h
             · cases h
-              obtain ⟨pre, hpre⟩ := consumeInvalidInput_true s1 s' hci
-              have hs1 : s1.rest <:+ s.rest := Mono.err hp
-              obtain ⟨X, hX⟩ := hs1
-              exact key (X ++ pre) (by rw [← hX, hpre]; simp) hbytes
+              rcases consumeInvalidInput_true s1 s' hci with ⟨he, hlf⟩ | ⟨pre, hpre, _⟩
+              · -- the look-ahead token is the LF: it is the last byte that was read
+                obtain ⟨hl1, X, hX⟩ := parseLine_err_loaded fuel s t s1 hp
+                have hne : s1.cur.ty ≠ .eof := by rw [hlf]; decide
+                have hv : s1.cur.val = 10 := (tokTy_lf _).mp (by rw [← hl1.2 hne]; exact hlf)
+                subst he
+                exact key X (by rw [← hX, input_of_cur_ne hne, hv]) hbytes
+              · have hs1 : s1.rest <:+ s.rest := Mono.err hp
+                obtain ⟨X, hX⟩ := hs1
+                exact key (X ++ pre) (by rw [← hX, hpre]; simp) hbytes
   | ok c s1 =>
     rw [hp] at h
     obtain ⟨A, hA⟩ := parseLine_ok_lf fuel s c s1 hp
